@@ -4,6 +4,7 @@ pub mod c06;
 pub mod c07;
 pub mod c09;
 pub mod c14;
+pub mod c16n;
 pub mod c17;
 pub mod c18;
 pub mod c18b;
@@ -19,6 +20,7 @@ pub fn by_id(id: &str) -> Option<Box<dyn Scenario>> {
         "C07" => Some(Box::new(c07::C07)),
         "C09" => Some(Box::new(c09::C09)),
         "C14" => Some(Box::new(c14::C14)),
+        "C16N" => Some(Box::new(c16n::C16N)),
         "C17" => Some(Box::new(c17::C17)),
         "C18" => Some(Box::new(c18::C18)),
         "C19" => Some(Box::new(c19::C19)),
